@@ -52,6 +52,10 @@ def gen_selection(rng, n, tier):
                     if rng.random() < 0.3:
                         spec[p + "/" + hd + "/.deep"] = None
                         spec[p + "/" + hd + "/.deep/f"] = "C:deep" + hd
+        # second names (hard links) of files: every name is an entry of its own
+        if rng.random() < 0.15:
+            for p in [q for q, v in list(spec.items()) if isinstance(v, str)][:2]:
+                spec[os.path.dirname(p) + "/hl_" + os.path.basename(p)] = ["hard", os.path.basename(p)]
         mode = rng.choice(["name", "path", "directory"])
         explicit = []
         if mode != "directory" and rng.random() < 0.3:
@@ -63,13 +67,14 @@ def gen_selection(rng, n, tier):
         yield {"spec": spec, "roots": roots, "explicit": explicit, "mode": mode, "recursive": rng.random() < 0.5,
                "hidden": rng.random() < 0.4, "filter_kind": kind, "filter": expr, "invert": rng.random() < 0.35,
                "strategy": "stop", "answers": [], "plan": {}, "order": {}, "sorted": False, "invert_sort": False,
-               "dry": True, "answer_style": 0}
+               "dry": True, "answer_style": 0, "spelling": rng.choice(["abs", "abs", "rel", "dotted"]),
+               "hidden_parent": rng.random() < 0.15}
 
 
 def impl_selection(case):
     c = dict(case)
     c["invert"] = False   # (fsrun uses "invert" for the sort)
-    with common.Sandbox(fsrun.spec_from_json(case["spec"])) as root:
+    with common.Sandbox(fsrun.spec_from_json(case["spec"]), hidden_parent=case.get("hidden_parent", False)) as root:
         import json, tempfile, shutil
         rootp = os.path.realpath(root)
         tdir = tempfile.mkdtemp(prefix="tvt_", dir=common.scratch_root())
@@ -91,7 +96,7 @@ def impl_selection(case):
                 extra.append("-fi")
             before = common.snapshot(root)
             with fsrun.Observer(root, None) as obs:
-                out, err, rc = common.run_cli(extra + args)
+                out, err, rc = common.run_cli(extra + args, cwd=rootp)
             after = common.snapshot(root)
         finally:
             shutil.rmtree(tdir, ignore_errors=True)
